@@ -23,6 +23,8 @@ def check(prog, rep, tier):
     rep.rule('R04.d', 'validation constants: the set of header lengths accepted is exactly [19, 4096], the '
                       'type codes dispatched are exactly {1,2,3,4,5,128}')
     rep.rule('R04.e', 'progress: every path that returns True consumes at least one octet')
+    rep.rule('R04.f', 'a framing violation (bad marker, length outside [19,4096], unknown type) is answered in every '
+                      'state but Idle with exactly one NOTIFICATION (1, 1|2|3), a close and Idle')
     rep.assumptions += ['equality with a reference deframer on concrete streams is an argument from '
                         'R04.a-e, not an enumeration of streams', 'CPU time beyond termination is not decided']
     facts = common.env_facts(prog)
@@ -111,6 +113,10 @@ def check(prog, rep, tier):
                     'return False, nothing changed')
                 continue
             if cls in ('BAD_MARKER', 'BAD_LEN', 'UNKNOWN_TYPE'):
+                from .. import profile as P
+                sub = {'BAD_MARKER': 1, 'BAD_LEN': 2, 'UNKNOWN_TYPE': 3}[cls]
+                okp, probs, alt = P.evaluate(P.hdr_cell(1, sub, state), r)
+                put('R04.f', 'reaction:%s@%s' % (cls, state), okp, r, '; '.join(probs), alt)
                 idx = [i for i, e in enumerate(r.events) if e[0] == 'fsm' and e[1] == 'header_error']
                 after = [e for e in (r.events[idx[0] + 1:] if idx else [])
                          if e[0] == 'bgp' and e[1].endswith('_received')]
